@@ -514,6 +514,55 @@ def rule_r4(chk, p, t):
                     r.violation(cons, f"iter:{unparse(it)[:60]}", f"`{what}` is stacked over `{unparse(it)[:70]}`: the rows of this quantity no longer correspond to the rows of the others", m.loc(n))
 
 
+
+def _order_dependent_selection(fn, prm, value):
+    """`value` is built from a local collection that a loop over `prm` fills one element at a time, keyed (one element
+    per key: first / last / best-so-far wins, ties broken by position) or under a condition that reads what the loop has
+    stored so far: which observations survive depends on the order of the list.  Returns a description or None."""
+    names = {x.id for x in ast.walk(value) if isinstance(x, ast.Name)}
+    for loop in walk_no_nested(fn):
+        if not (isinstance(loop, ast.For) and isinstance(loop.iter, ast.Name) and loop.iter.id == prm and isinstance(loop.target, ast.Name)):
+            continue
+        el = loop.target.id
+        mutated = set()
+        for n in ast.walk(loop):
+            if isinstance(n, ast.Assign):
+                for tg in n.targets:
+                    if isinstance(tg, ast.Subscript) and isinstance(tg.value, ast.Name):
+                        mutated.add(tg.value.id)
+            elif isinstance(n, ast.Call) and isinstance(n.func, ast.Attribute) and n.func.attr in ("append", "add", "setdefault", "update", "insert") and isinstance(n.func.value, ast.Name):
+                mutated.add(n.func.value.id)
+        aliases = {el}
+        for n in ast.walk(loop):
+            if isinstance(n, ast.Assign) and len(n.targets) == 1 and isinstance(n.targets[0], ast.Name) and any(isinstance(x, ast.Name) and x.id in mutated for x in ast.walk(n.value)):
+                aliases.add(n.targets[0].id)  # e.g. current = selected.get(key)
+
+        def conds_of(stmt):
+            out, stack = [], [(loop, [])]
+            while stack:
+                node, cs = stack.pop()
+                for fld in ("body", "orelse"):
+                    for s in getattr(node, fld, []) or []:
+                        c2 = cs + ([node.test] if isinstance(node, ast.If) else [])
+                        if s is stmt:
+                            return c2
+                        if isinstance(s, (ast.If, ast.For, ast.While, ast.With, ast.Try)):
+                            stack.append((s, c2))
+            return out
+
+        for n in ast.walk(loop):
+            keyed = isinstance(n, ast.Assign) and len(n.targets) == 1 and isinstance(n.targets[0], ast.Subscript) and isinstance(n.targets[0].value, ast.Name) and n.targets[0].value.id in names and isinstance(n.value, ast.Name) and n.value.id == el
+            appended = isinstance(n, ast.Expr) and isinstance(n.value, ast.Call) and isinstance(n.value.func, ast.Attribute) and n.value.func.attr in ("append", "add") and isinstance(n.value.func.value, ast.Name) and n.value.func.value.id in names and any(isinstance(a, ast.Name) and a.id == el for a in n.value.args)
+            if keyed:
+                return f"a collection that keeps ONE observation per `{unparse(n.targets[0].slice)[:40]}` while iterating over `{prm}` (line {n.lineno}): with two observations of equal key the survivor - and with it the posterior - depends on their order in the list"
+            if appended:
+                cs = conds_of(n)
+                stateful = [c for c in cs if any(isinstance(x, ast.Name) and (x.id in mutated or (x.id in aliases and x.id != el)) for x in ast.walk(c))]
+                if stateful:
+                    return f"a list appended to under `{unparse(stateful[0])[:50]}`, a condition on what the loop has kept so far (line {n.lineno}): which observations survive depends on the order of `{prm}`"
+    return None
+
+
 def rule_r5(chk, p, t):
     r = chk.rule(
         "C16.R5",
@@ -557,7 +606,11 @@ def rule_r5(chk, p, t):
                         if reorders:
                             bad.append(f"`{prm}` is re-bound to `{unparse(v)[:60]}` (line {n.lineno})")
                         elif not copy_only:
-                            unsure.append(f"`{prm}` is re-bound to `{unparse(v)[:60]}` (line {n.lineno})")
+                            sel = _order_dependent_selection(m.node, prm, v)
+                            if sel:
+                                bad.append(f"`{prm}` is re-bound to `{unparse(v)[:50]}`, {sel}")
+                            else:
+                                unsure.append(f"`{prm}` is re-bound to `{unparse(v)[:60]}` (line {n.lineno})")
                     if isinstance(n, ast.Call):
                         nm = call_name(n)
                         if nm in REORDER and any(isinstance(a, ast.Name) and a.id == prm for a in list(n.args) + ([n.func.value] if isinstance(n.func, ast.Attribute) else [])):
